@@ -185,7 +185,7 @@ CaseM decode(Reader& r) {
         uint32_t nt = 1 + r.below(4);
         for (uint32_t t = 0; t < nt; t++) {
             TestM tm;
-            tm.name = gen_name(r, style, 6);
+            tm.name = r.below(12) == 11 ? std::string() : gen_name(r, style, 6);   // TEST(group, ) / setTestName(""): an empty test name is expressible
             tm.file = r.below(4) == 3 ? gen_name(r, style, 6) : groupFile;
             tm.line = r.pick(LINES);
             tm.ignored = r.below(6) == 5;
@@ -495,6 +495,7 @@ int run_and_judge(const CaseM& c, bool useKnown, Verdict& v) {
             if (!s.fails.empty()) gf = true;
             verif::cls(!s.executed ? "test:ignored" : (s.fails.empty() ? "test:pass" : (s.fails.size() > 1 ? "test:fail-twice" : "test:fail")));
             if (t.ignored && c.runIgnored) verif::cls("test:ignored-but-run");
+            if (t.name.empty()) { verif::cls("empty-test-name"); if (t.ignored) verif::cls("empty-test-name:IGNORE_TEST"); if (!s.fails.empty()) verif::cls("empty-test-name:failing"); }
         }
         if (gf) groupsWithFailure++;
     }
